@@ -763,7 +763,7 @@ def check_c14(tier, seed):
                 'subset of the relevant declarations (chain candidates + 4 distractors + imports/file names, kinds '
                 'rotated); LookupLaw is a TLC invariant; each case is built through the real parser and find_fqn, '
                 'find_any and scope_resolution_order are compared as multisets/sequences. Every string up to length 3/4 '
-                'over 10 characters and every list of <=3 strings is fed to namespaceids_t/NamespaceIds.')
+                'over 10 characters and every list of <=3 strings is fed to namespaceids_t/NamespaceIds. Also: interface-local types (rot=2), FindResult.has_one_instance / get_single_instance against the model\'s found set.')
     lookups = ['ScopingCases_lookup.cfg'] if tier == 'quick' else ['ScopingCases_lookup3.cfg']
     notes = ['ScopingCases_notation.cfg' if tier == 'quick' else 'ScopingCases_notation4.cfg', 'ScopingCases_idlist.cfg']
     for cfg in lookups + notes:
